@@ -132,7 +132,7 @@ Section SchemaProofs.
   Fixpoint wf_map (t : ty) (m : list (list Z * value)) : Prop :=
     match m with [] => True | kv :: r => wf t (snd kv) /\ wf_map t r end.
 
-  Lemma wf_map_eq t m : wf (TMap t) (VMap m) <-> sorted_keys cval m /\ wf_map t m.
+  Lemma wf_map_eq t m : wf (TMap t) (VMap m) <-> no_dup_keys cval m /\ wf_map t m.
   Proof.
     cbn [C08_Schema.wf]. apply and_iff_compat_l. induction m as [|x r IH]; simpl; tauto.
   Qed.
